@@ -36,25 +36,26 @@ def run(ctx):
         "other_property_rejections": res["other_property_rejections"], "tlc": mc["detail"],
         "bounded_search": {{"programs": res["bounded_searches"], "runs": res["bounded_search_runs"], "finished_exhaustively": res["bounded_searches_finished"]}},
     }})
+    {post}
     ctx.assumptions += gc.ASSUMPTIONS
     return "model_checking"
 '''
 D = {
-"c02": dict(extra="",title="C02 -- channels deliver each item exactly once, in order, to the right channel",
+"c02": dict(post="", extra="",title="C02 -- channels deliver each item exactly once, in order, to the right channel",
   cfgs='["GW_data", "GW_cb"] if ctx.quick else ["GW_data", "GW_cb", "GW_cb_recv", "GW_data_big"]', mutants='[]',
   fam="c02_programs(rng, 10 if ctx.quick else 80)", own='["C02.", "C10.callback-item", "C10.callback-missed", "C10.endmarker-before-last-item", "C08.", "C18.channel-id-handed-out-twice"]',
   line='["send", "_send", "to_io", "_local_receive", "receive", "setcallback", "new", "from_io"]',
   nontriv='lambda evs: sum(1 for e in evs if e["ev"] in ("deq", "cb")) >= 3',
   rule="generated channel programs (1-3 channels, both directions, 1-2 receiver threads or a callback per channel, two sender threads on one channel, channels passed over channels)",
   ntext="non-trivial = at least 3 items delivered", known="None"),
-"c03": dict(extra="",title="C03 -- close is ordered after data and observed consistently by both sides",
+"c03": dict(post='ctx.coverage["chanlife_replay"] = life', extra='life = gc.chanlife_part(ctx, ["C03."], 3 if ctx.quick else 5)',title="C03 -- close is ordered after data and observed consistently by both sides",
   cfgs='["GW_data", "GW_lclose"] if ctx.quick else ["GW_data", "GW_err", "GW_lclose", "GW_data_big", "GW_all_big"]', mutants='["GW_close_unfixed"]',
   fam="c03_programs(rng, 10 if ctx.quick else 80)", own='["C03."]',
   line='["close", "_local_close", "_no_longer_opened", "receive", "waitclose", "send", "isclosed", "__del__"]',
   nontriv='lambda evs: any(e["ev"] == "ret" and e["op"] == "receive" and e["res"] == "EOF" for e in evs) and any(e["ev"] == "ret" and e["op"] in ("send", "isclosed") for e in evs)',
   rule="generated send/close histories (explicit close, close with error, end of remote_exec, dropping the last reference, concurrent close on both sides) with 1-3 blocked receivers and waitclose callers that probe isclosed/send/waitclose/close/receive after having observed the close",
   ntext="non-trivial = some receiver saw EOFError and a probe (send/isclosed) followed", known="None"),
-"c07": dict(extra='jobs += gc.jobs_for([p for p in progs if len(p["threads"]) == 1], 6 if ctx.quick else 40, 2, ctx.seed + 1, [{"post_yields": True, "worker_backend": "main_thread_only"}])',title="C07 -- remote failures surface as RemoteError on that channel only",
+"c07": dict(post="", extra='jobs += gc.jobs_for([p for p in progs if len(p["threads"]) == 1], 6 if ctx.quick else 40, 2, ctx.seed + 1, [{"post_yields": True, "worker_backend": "main_thread_only"}])',title="C07 -- remote failures surface as RemoteError on that channel only",
   cfgs='["GW_err"] if ctx.quick else ["GW_err", "GW_cb_recv", "GW_data_big", "GW_all_big"]', mutants='[]',
   fam="c07_programs(rng, 8 if ctx.quick else 60)", own='["C07.", "C14.false-deadlock"]',
   line='["_local_receive", "_local_close", "close", "waitclose", "receive", "_getremoteerror", "executetask", "_executetask"]',
@@ -62,7 +63,7 @@ D = {
   rule="failures at every position of generated item streams: raising remote bodies and raising callbacks on either side, channel object alive or dropped, a sibling channel with traffic, hasreceiver() probes",
   ntext="non-trivial = a CHANNEL_CLOSE_ERROR frame was dispatched",
   known='(lambda r, vd: {"C07.remote-error-swallowed-after-last-message": "error-after-last-message", "C07.callback-error-during-setcallback-drain-not-reported": "callback-raises-during-setcallback-drain"}.get(vd))'),
-"c10": dict(extra="",title="C10 -- callback receivers see every item once, in order, then one endmarker",
+"c10": dict(post='ctx.coverage["chanlife_replay"] = life', extra='life = gc.chanlife_part(ctx, ["C10."], 3 if ctx.quick else 5)',title="C10 -- callback receivers see every item once, in order, then one endmarker",
   cfgs='["GW_cb", "GW_cb_recv"] if ctx.quick else ["GW_cb", "GW_cb_recv", "GW_all_big"]', mutants='[]',
   fam="c10_programs(rng, 10 if ctx.quick else 80)", own='["C10."]',
   line='["setcallback", "_local_receive", "_local_close", "_no_longer_opened", "_finished_receiving", "receive"]',
@@ -70,7 +71,7 @@ D = {
   rule="setcallback placed before / between / after in-flight items and the peer's close (the schedule decides where relative to the receiver thread), endings by close, error, end of body and gateway exit, with and without endmarker, callback channels whose object was dropped, two callback channels at once",
   ntext="non-trivial = the callback was invoked at least twice",
   known='(lambda r, vd: "dropped-callback-channel-no-close" if vd == "C10.dropped-callback-channel-never-closed-by-the-peer" else None)'),
-"c18": dict(extra="",title="C18 -- channel ids never collide and channels travel over channels intact",
+"c18": dict(post='ctx.coverage["chanlife_replay"] = life', extra='life = gc.chanlife_part(ctx, ["C18.", "C10.", "C03.", "C02."], 4 if ctx.quick else 6)',title="C18 -- channel ids never collide and channels travel over channels intact",
   cfgs='[("MCChanIds", "CI"), "GW_data"] if ctx.quick else [("MCChanIds", "CI"), ("MCChanIds", "CI_big"), "GW_data", "GW_data_big"]', mutants='[("MCChanIds", "CI_nolock")]',
   fam="c18_programs(rng, 8 if ctx.quick else 60)", own='["C18.", "C02.", "C10.dropped-callback"]',
   line='["new", "newchannel", "remote_exec", "load_channel", "_no_longer_opened", "close", "__init__", "setcallback", "_local_close"]',
